@@ -3,7 +3,7 @@
 import sys, json, operator, itertools
 from mesonbuild.utils import universal as U
 
-SEP1, SEP2, MARK = '\x01', '\x02', '\x03'
+SEP1, SEP2, MARK, SEP4 = '\x01', '\x02', '\x03', '\x04'
 T = lambda b: 'T' if b else 'F'
 
 
@@ -35,7 +35,10 @@ def ev(fn, args):
     if fn == 'vc':
         return T(U.version_compare(args[0], args[1]))
     if fn == 'many':
-        ok, nf, f = U.version_compare_many(args[0], list(args[1:]))
+        conds = list(args[1:])
+        if len(conds) == 1 and len(args[0]) % 2 == 0:
+            conds = conds[0]          # the `conditions: str` form of the signature
+        ok, nf, f = U.version_compare_many(args[0], conds)
         return SEP1.join([T(ok), SEP2.join(nf), SEP2.join(f)])
     if fn == 'range':
         r = U.version_check_to_range(list(args[1:]))
@@ -49,7 +52,107 @@ def ev(fn, args):
         return SEP1.join([r_range(i), T(U.Version(args[0]) in i), r_obool(a.always(b))])
     if fn == 'cwm':
         return T(U.version_compare_condition_with_min(args[0], args[1]))
+    if fn == 'sweep':
+        return ''.join(class_char(c) for c in range(int(args[0]), int(args[0]) + int(args[1])))
+    if fn == 'search':
+        return U.search_version(args[0])
+    if fn == 'fnorm':
+        return decorators().FeatureNew('n', args[0]).feature_version
+    if fn == 'feat':
+        return SEP4.join(feat(args))
     return '?'
+
+
+def class_char(c):
+    """One code point as Version's tokenizer (re \\d / [a-zA-Z], int()) and str.strip() see it."""
+    ch = chr(c)
+    v = U.Version('1' + ch + '1')._v
+    if len(v) == 1 and isinstance(v[0], int) and v[0] in range(101, 200, 10):
+        return chr(48 + (v[0] - 101) // 10)
+    if len(v) == 3 and v[0] == 1 and v[2] == 1 and v[1] == ch:
+        return 'a'
+    if v == (1, 1):
+        return 's' if ch.strip() == '' else '-'
+    return '?'
+
+
+_D = None
+
+
+def decorators():
+    global _D
+    if _D is None:
+        import mesonbuild.interpreterbase.decorators as D
+        _D = D
+    return _D
+
+
+def fields(s):
+    return s.split(SEP2) if s else []
+
+
+def feat_setup(major, tvk, pv, conds):
+    """project(meson_version: pv) followed by nested `if meson.version().version_compare(*cs)` blocks:
+    interpreter.py:549 and interpreterbase.py:319-325 (the three glue lines are repeated here, every
+    function they call is the real one).  Returns (range, always-answers)."""
+    D = decorators()
+    D.coredata.version = major + '.99.0'
+    prev = U.version_check_to_range([pv])
+    top = prev
+    alw = ''
+    for cs in conds:
+        tmp = U.version_check_to_range(list(cs))
+        alw += r_obool(prev.always(tmp))
+        prev = prev.intersect(tmp)
+    U.project_meson_versions.pop('sub', None)
+    if tvk == 'R':
+        U.project_meson_versions['sub'] = prev
+    elif tvk == 'V':
+        U.project_meson_versions['sub'] = U.NoProjectVersion()
+    return prev, alw
+
+
+def report_headings(cls, logs):
+    """Run the real report() and return {version: 'T' (notice heading) | 'F' (warning heading)}."""
+    del logs[:]
+    cls.report('sub')
+    out = {}
+    for kind, text in logs:
+        for item in text.split('\n * ')[1:]:
+            out[item.split(': {', 1)[0]] = 'T' if kind == 'N' else 'F'
+    return out
+
+
+def feat(args, want_logs=False):
+    D = decorators()
+    kind, major, tvk, pv = args[:4]
+    rest = list(args[4:])
+    k = rest.index(MARK)
+    conds = [fields(c) for c in rest[:k]]
+    uses = [fields(u) for u in rest[k + 1:]]
+    cls = {'new': D.FeatureNew, 'dep': D.FeatureDeprecated, 'brk': D.FeatureBroken}[kind]
+    logs = []
+    saved = (D.mlog.warning, D.mlog.notice, D.coredata.version, D.mlog.deprecation)
+    D.mlog.warning = lambda *a, **kw: logs.append(('W', ' '.join(str(x) for x in a)))
+    D.mlog.deprecation = D.mlog.warning       # FeatureBroken.log_usage_warning
+    D.mlog.notice = lambda *a, **kw: logs.append(('N', ' '.join(str(x) for x in a)))
+    try:
+        r, alw = feat_setup(major, tvk, pv, conds)
+        cls.feature_registry.clear()
+        ws = ''
+        for name, ver, loc in uses:
+            n0 = len(logs)
+            cls.single_use(name, ver, 'sub', location=loc)
+            ws += T(len(logs) > n0)
+        reg = cls.feature_registry.get('sub', {})
+        regs = ''.join(T((name, loc) in reg.get(ver, set())) for name, ver, loc in uses)
+        heads = report_headings(cls, logs)
+        rep = ''.join(heads.get(ver, '?') if (name, loc) in reg.get(ver, set()) else '-' for name, ver, loc in uses)
+        return [r_range(r), alw, ws, regs, rep]
+    finally:
+        D.mlog.warning, D.mlog.notice, D.coredata.version, D.mlog.deprecation = saved
+        cls.feature_registry.clear()
+        U.project_meson_versions.pop('sub', None)
 
 
 def safe(fn, args):
@@ -90,6 +193,26 @@ def oracle(strings, checklists):
                     continue
                 if U.version_compare(strings[i], sp + w) != (OPS.get(sp, operator.eq)(a, U.Version(w.strip()))):
                     add('version_compare', v=strings[i], c=sp + w)
+    # numeric components compare numerically and rank above alphabetic ones; a longer version with an
+    # equal prefix is greater (the digit notion is str.isdecimal()/int(), not the tokenizer's regex)
+    for i in range(n):
+        for j in range(n):
+            a, b = strings[i], strings[j]
+            if a and b and a.isdecimal() and b.isdecimal() and len(a) <= 4300 and len(b) <= 4300:
+                want = (int(a) < int(b), int(a) == int(b), int(a) > int(b))
+                if rel[i, j][:3] != want:
+                    add('numeric_numerically', a=a, b=b)
+                for pre in ('1.', 'x', '0-'):
+                    va, vb = U.Version(pre + a), U.Version(pre + b)
+                    if (va < vb, va == vb, va > vb) != want:
+                        add('numeric_numerically', a=pre + a, b=pre + b)
+            if a and b and a.isascii() and a.isalpha() and b.isdecimal():
+                if not rel[i, j][0] or not (U.Version('1.' + a) < U.Version('1.' + b)):
+                    add('numeric_above_alpha', a=a, b=b)
+            if b and U.Version(b)._v:
+                for sep in ('.', '-', ' '):
+                    if not (vs[i] < U.Version(a + sep + b)):
+                        add('longer_is_greater', a=a, b=a + sep + b)
     for i in range(n):
         for j in range(n):
             if rel[i, j][0] != rel[j, i][2]:
@@ -134,6 +257,48 @@ def oracle(strings, checklists):
     return fails
 
 
+def feature_oracle(g):
+    """End-to-end clauses about FeatureNew/FeatureDeprecated evaluated on the real decorators (no model):
+    a suppressed FeatureNew warning means every admitted version is >= the feature version; under
+    meson_version '>=W' the warning appears iff the feature version is > W; a FeatureDeprecated warning means
+    every admitted version is >= the deprecation; report() lists a feature under the warning heading iff its
+    usage warning was printed."""
+    D = decorators()
+    fails = []
+
+    def add(kind, **kw):
+        if len(fails) < 20:
+            fails.append(dict(kind=kind, **kw))
+
+    def sat(x, c):
+        op, w = U._version_extract_cmpop(c)
+        return op(U.Version(x), U.Version(w))
+    conds = [list(c) for c in g['conds']]
+    for pv in g['pvs']:
+        for fv in g['fvers']:
+            for kind, cls in (('new', D.FeatureNew), ('dep', D.FeatureDeprecated)):
+                args = [kind, g['major'], 'R', pv] + [SEP2.join(c) for c in conds] + [MARK, SEP2.join(['f', fv, ''])]
+                _, _, ws, regs, rep = feat(args)
+                warned = ws == 'T'
+                norm = cls('f', fv).feature_version
+                admitted = [x for x in g['xs'] if sat(x, pv) and all(sat(x, c) for cs in conds for c in cs)]
+                small = dict(major=g['major'], pvs=[pv], conds=conds, fvers=[fv])
+                if (kind == 'new' and not warned) or (kind == 'dep' and warned):
+                    for x in admitted:
+                        if not U.Version(x) >= U.Version(norm):
+                            add('feature_%s_sound' % kind, pv=pv, conds=conds, feature_version=fv, x=x, group=dict(small, xs=[x]))
+                if kind == 'new' and not conds and pv.startswith('>=') and pv[2:3] not in ('<', '>', '=', '!'):
+                    if warned != (U.Version(norm) > U.Version(pv[2:].strip())):
+                        add('feature_new_ge_exact', pv=pv, feature_version=fv, warned=warned, group=dict(small, xs=[]))
+                if regs == 'T' and rep != ('F' if warned else 'T'):
+                    f = dict(pv=pv, conds=conds, feature_version=fv, cls=kind, warned=warned, heading=rep, group=dict(small, xs=[]))
+                    tv = feat_setup(g['major'], 'R', pv, conds)[0]
+                    if fv != norm and cls.check_version(tv, norm) == (not warned):
+                        f['ident'] = 'C19:report-unnormalised-version'
+                    add('report_heading', **f)
+    return fails
+
+
 def main():
     req = json.load(sys.stdin)
     out = {}
@@ -147,6 +312,13 @@ def main():
             except Exception as e:
                 out['oracle'].append({'kind': 'exception', 'exc': type(e).__name__ + ': ' + str(e),
                                       'strings': grp['strings'], 'checklists': grp['checklists']})
+    if 'feature_oracle' in req:
+        out['feature_oracle'] = []
+        for grp in req['feature_oracle']:
+            try:
+                out['feature_oracle'].extend(feature_oracle(grp))
+            except Exception as e:
+                out['feature_oracle'].append({'kind': 'exception', 'exc': type(e).__name__ + ': ' + str(e), 'group': grp})
     json.dump(out, sys.stdout)
 
 
